@@ -4,4 +4,5 @@ pub mod decode;
 pub mod logical;
 pub mod rep;
 pub mod report;
+pub mod seq;
 pub mod source;
